@@ -72,7 +72,9 @@ def groups(tier, seed):
                                     for sel in ("concat('f:', name)", "concat_ws('-', 'f', path)", "replace('x-y', 'y', name)")
                                     for o in (0, 1) for r in ('dot', 'two')]}
     # family 6b: ... and nothing else is selected (the query must still be recognised as reading file columns)
-    yield {'tree': 'lim', 'selonly': True, 'cases': [{'sel': i, 'N': n, 'roots': r} for i in range(len(SELONLY)) for n in (None, 0, 1, 2, 5, 50) for r in ('dot', 'two', 'none')]}
+    yield {'tree': 'lim', 'selonly': True, 'cases': [{'sel': i, 'N': n, 'roots': r} for i in range(len(SELONLY)) for n in (None, 0, 1, 2, 5, 50) for r in ('dot', 'two', 'none', 'tail')]}
+    # family 8: standard output is a terminal (names are coloured there): the N rows are those that a pipe gets
+    yield {'tree': 'lim', 'tty': True, 'cases': []}
     # family 7: aggregates see every row whatever LIMIT says (one row is <= any N >= 1), also over several roots
     yield {'tree': 'lim', 'agg': True, 'cases': [{'roots': r, 'N': n, 'arc': a} for r in ('dot', 'two') for n in (None, 1, 2, 5) for a in (False, True)]}
     # family 4: grouped rows are rows too
@@ -147,6 +149,8 @@ def eval_gdiff(env, root, group):
 def single(case):
     if case.get('fam') == 'gdiff':
         return {'tree': 'lim', 'gdiff': True, 'cases': [{k: case[k] for k in ('sel', 'gby', 'ob')}], 'only_n': case['N'] if case['N'] is not None else 'all'}
+    if case.get('fam') == 'tty':
+        return {'tree': 'lim', 'tty': True, 'cases': [], 'only': case['query']}
     if case.get('fam') == 'selonly':
         return {'tree': 'lim', 'selonly': True, 'cases': [{k: case[k] for k in ('sel', 'N', 'roots')}]}
     if case.get('fam') == 'agg':
@@ -190,6 +194,8 @@ def eval_group(env, group, tier):
             return eval_agg(env, root, group)
         if group.get('selonly'):
             return eval_selonly(env, root, group)
+        if group.get('tty'):
+            return eval_tty(env, group)
         if group.get('big'):
             return eval_big(env, root, group)
         for c in group['cases']:
@@ -371,10 +377,42 @@ SELONLY = [("concat('f:', name)", lambda e: 'f:' + e['name']), ("concat_ws('-', 
            ('1', lambda e: '1'), ("'hit'", lambda e: 'hit'), ('2 + 2', lambda e: '4'), ("upper('x')", lambda e: 'X'), ('curdate()', None), ("1, 'a'", None)]
 
 
+def eval_tty(env, group):
+    from fsx.props import c05
+    root = env.newdir('c6t')
+    core.materialise(root, {'zeta.txt': F(1), 'alpha': D({}), 'mid.sh': F(3, mode=0o755), 'beta.txt': F(2), 'omega': D({}), 'gamma.sh': F(4, mode=0o755),
+                            'delta.tar': F(5), 'aaa.jpg': F(6), 'link': {'t': 'l', 'to': 'zeta.txt'}, 'kappa': F(7)})
+    colors = {'LS_COLORS': 'di=01;34:ln=01;36:ex=01;32:*.tar=01;31:*.jpg=01;35:*.txt=00;33', 'TERM': 'xterm-256color'}
+    outs = []
+    try:
+        for sel, w, ob in (('name', ' where size ge 0', 'name'), ('name', ' where is_dir = false or size ge 0', '1 desc'), ('size, name', '', '2'), ('name, size', '', '1'),
+                           ('mode, name', " where name != 'q'", 'name desc')):
+            for N in (1, 2, 3, 5, 9, 10, 12):
+                q = '%s from .%s order by %s limit %d' % (sel, w, ob, N)
+                if group.get('only') is not None and group['only'] != q:
+                    continue
+                ref = env.run([q + ' into tabs'], cwd=root)
+                rc, text, err, raw = c05.run_on_terminal(env, [q], root, colors)
+                want = [l.split('\t') for l in ref.out.decode().split('\n') if l]
+                got = [l.split('\t') for l in text.split('\n') if l]
+                if ref.rc != 0 or len(want) != min(N, 10):
+                    raise core.MachineryError('C06 tty reference run failed %r' % ref.brief())
+                r = {'case': {'fam': 'tty', 'query': q}, 'nt': True, 'layer': 'terminal'}
+                if rc != 0 or err or got != want:
+                    r.update(status='viol', cls='terminal:rows-differ-from-pipe', sig=('tty',),
+                             detail={'query': q, 'rc': rc, 'terminal': got[:10], 'pipe': want[:10], 'coloured': '\x1b[' in raw})
+                else:
+                    r.update(status='ok', sig=(sel, ob, N, '\x1b[' in raw))
+                outs.append(r)
+    finally:
+        env.rmtree(root)
+    return outs
+
+
 def eval_selonly(env, root, group):
     res = []
     for c in group['cases']:
-        rootlist = ['.'] if c['roots'] in ('dot', 'none') else ['sub', 'oth']
+        rootlist = ['.'] if c['roots'] in ('dot', 'none', 'tail') else ['sub', 'oth']
         ents = []
         for r in rootlist:
             ents += om.entries(root if r == '.' else os.path.join(root, r), prefix=r)
@@ -382,6 +420,8 @@ def eval_selonly(env, root, group):
         N = c['N']
         # ('none': nothing but the select list - the working directory is searched)
         q = sel + ('' if c['roots'] == 'none' else ' from ' + ', '.join(rootlist)) + ('' if N is None else ' limit %d' % N) + ' into list'
+        if c['roots'] == 'tail':    # FROM written after the other clauses
+            q = sel + ('' if N is None else ' limit %d' % N) + ' into list from .'
         o = env.run([q], cwd=root)
         rows = o.rows(2) if sel == "1, 'a'" else o.rows()
         M = len(ents)
